@@ -5,9 +5,9 @@
 EXTENDS CodecAvro, Json, IOUtils
 Cases == JsonDeserialize(IOEnv.TRACE_FILE)
 VARIABLE cid
-TInit == cid \in 1..Len(Cases) /\ ty = "varint" /\ cl = "none" /\ second = "none"
-TNext == UNCHANGED <<cid, ty, cl, second>>
-TSpec == TInit /\ [][TNext]_<<cid, ty, cl, second>>
+TInit == cid \in 1..Len(Cases) /\ ty = "varint" /\ cl = "none" /\ second = "none" /\ nth = 1
+TNext == UNCHANGED <<cid, ty, cl, second, nth>>
+TSpec == TInit /\ [][TNext]_<<cid, ty, cl, second, nth>>
 C == Cases[cid]
 Contract ==
    /\ C.outcome \in (IF C.probe = "value" THEN Allowed(C.T, C.c) ELSE {"refused"})       \* never a different value
